@@ -35,8 +35,9 @@ ASSUMPTIONS = [
     "PolynomialTrend, ExponentialSmoothing, AutoETS, recursive reduction, ensembles/multiplexers "
     "of those, and pipelines whose transformers are parameter-free (Log, affine double); "
     "Theta, Deseasonalizer/Detrender pipelines, stacking and tuners document partial updates",
-    "update_predict is explored with start_with_window=True splitters (an empty first window "
-    "has no corresponding single update)",
+    "update_predict: splitters with start_with_window=True and (like the default cv) False; the "
+    "empty first window corresponds to update(empty) followed by predict, for data that continues "
+    "directly after the current cutoff",
     "data arrive in time order; overlapping batches restate at most the last 2 observed points",
 ]
 
@@ -106,6 +107,7 @@ def _ops(menu):
             ops.append(["O", back, new, up])
     for k in ((1,) if menu == "q" else (1, 2)):
         ops.append(["UPS", k])
+        ops.append(["UPS", k, False])
     return ops
 
 
@@ -121,6 +123,10 @@ def _terminals():
     out.append(["UP", 2, 1, [0, 1], True])
     out.append(["UP", 2, 2, [-1, 1], False])
     out.append(["UP", 1, 1, [0], True])
+    # the default cv of update_predict starts with an EMPTY window (start_with_window=False)
+    out.append(["UP", 2, 1, [1], True, "sww0"])
+    out.append(["UP", 1, 2, [1, 2], True, "sww0"])
+    out.append(["UP", 2, 1, [1, 2], False, "sww0"])
     return out
 
 
@@ -173,9 +179,11 @@ def _build(spec, y_full, a, hist, fh_fit, res=None, tag=""):
         pd_before = canon.param_digest(f)
         if op[0] == "UPS":
             b, consumed = sim.batch(op)
+            up = op[2] if len(op) > 2 else True
             sim.ups_ret = f.update_predict_single(b.copy(),
-                                                  fh=fh_fit if fh_fit is not None else [1, 2])
-            sim.apply(b, consumed, True)
+                                                  fh=fh_fit if fh_fit is not None else [1, 2],
+                                                  update_params=up)
+            sim.apply(b, consumed, up)
         else:
             b, consumed = sim.batch(op)
             up = op[-1]
@@ -332,7 +340,12 @@ def _check_state(res, tag, spec, f, sim, hist, fh_fit, refit_eq, cf, pd_before, 
                     return True
     # update_predict_single == update + predict on a twin
     if hist and hist[-1][0] == "UPS":
-        t = call(_build, spec, y_full, a, hist[:-1] + [["U", hist[-1][1], True]], fh_fit)
+        ups_up = hist[-1][2] if len(hist[-1]) > 2 else True
+        if not ups_up and canon.param_digest(f) != pd_before:
+            res.violate("%s:params-changed" % tag, "update_predict_single(update_params=False) "
+                        "changed fitted parameters", observed=H)
+            return True
+        t = call(_build, spec, y_full, a, hist[:-1] + [["U", hist[-1][1], ups_up]], fh_fit)
         if t.ok:
             twin = t.value[0]
             e = twin.predict(None if fh_fit is not None else [1, 2])
@@ -349,7 +362,8 @@ def _check_state(res, tag, spec, f, sim, hist, fh_fit, refit_eq, cf, pd_before, 
 def _check_update_predict(res, tag, spec, y_full, a, hist, top):
     from sktime.forecasting.model_selection import SlidingWindowSplitter
 
-    _, W, s, fh, up = top
+    _, W, s, fh, up = top[:5]
+    sww = not (len(top) > 5 and top[5] == "sww0")
     o = call(_build, spec, y_full, a, hist, None)
     t = call(_build, spec, y_full, a, hist, None)
     if not o.ok or not t.ok:
@@ -358,7 +372,7 @@ def _check_update_predict(res, tag, spec, y_full, a, hist, top):
     twin, _, _ = t.value
     n_new = 7
     y_new = y_full.iloc[sim.pos:sim.pos + n_new]
-    cv = SlidingWindowSplitter(fh=fh, window_length=W, step_length=s, start_with_window=True)
+    cv = SlidingWindowSplitter(fh=fh, window_length=W, step_length=s, start_with_window=sww)
     cut0 = f.cutoff
     r = call(lambda: f.update_predict(y_new.copy(), cv, update_params=up))
     H = dict(history=hist, op=top)
